@@ -868,7 +868,8 @@ Example C18_given_generator_unread_example :
   /\ o_final (exec (from_global C18RandProg.counter_gen) C18RandProg.leaky_prog (1, 5)) = (1, 6).
 Proof. vm_compute. repeat split; reflexivity. Qed.
 
-(* evaluate_model and analyze_model_evaluation DECLARE --seed as the four randomised commands do *)
+(* evaluate_model and analyze_model_evaluation DECLARE --seed as the four randomised commands do (analyze_model_evaluation is
+   a randomised command: see the end of this section) *)
 Theorem C18_source_parser_evaluate_model_seed :
   Cli.seed_declared SrcParser_evaluate_model.src_parser_evaluate_model.
 Proof. exact C18SourceParserSeedDeclared.parser_evaluate_model_seed. Qed.
@@ -889,6 +890,76 @@ Theorem C18_model_is_source_cli_evaluate_model_seedless :
   SrcCli.src_cli_evaluate_model Scr Th Pr PrT Ob Nm Ev L a = Cli.cli_evaluate_model L a.
 Proof. exact C10SourceCli.src_cli_evaluate_model_is_model. Qed.
 Print Assumptions C18_model_is_source_cli_evaluate_model_seedless.
+
+(* ---- analyze_model_evaluation.main READS its --seed (repair "fix: analyze_model_evaluation ignored --seed"; before it this was
+   the known finding analyze-model-evaluation-cli-ignores-seed).  Two of its five plots call seaborn.regplot, which bootstraps
+   the confidence band of the regression from numpy.random.default_rng(seed): a function of the integer when one is given,
+   seeded from the operating system's entropy when seed is None (CliAnalyze.regplot_rng; of_seed / of_entropy / the types
+   of generators and of entropy are arbitrary).  The WHOLE main(), re-translated on every run (configuration CLI_ANALYZE,
+   shared with C20), equals CliAnalyze.cli_analyze = cli_analyze_gen true, whose two regplot-drawing calls carry
+   seed=args.seed; the events AnScatter / AnScatterSample record the keyword (None when absent). ---- *)
+From Batchie Require Model.CliAnalyze Generated.SrcCliAnalyze Proofs.C20SourceCli_AnalyzeMain Proofs.C18CliAnalyze.
+
+(* same statement as C20_model_is_source_cli_analyze; re-stated so that C18 reports a broken obligation when main() stops
+   handing --seed to either plot (the call without the keyword translates to an event carrying None) or starts to draw elsewhere
+   (no generator / draw primitive in the configuration's vocabulary; the translator refuses any other call) *)
+Theorem C18_model_is_source_cli_analyze :
+  forall (Scr Th Ev Co F : Type) (L : CliAnalyze.an_lib Scr Th Ev Co F) (a : CliAnalyze.an_args),
+  SrcCliAnalyze.src_cli_analyze Scr Th Ev Co F L a = CliAnalyze.cli_analyze L a.
+Proof. exact C20SourceCli_AnalyzeMain.src_cli_analyze_is_model. Qed.
+Print Assumptions C18_model_is_source_cli_analyze.
+
+(* a run of the translated main() that completes makes exactly two regplot-drawing calls, both with seed = --seed *)
+Theorem C18_source_cli_analyze_regplot_seeds :
+  forall (Scr Th Ev Co F : Type) (L : CliAnalyze.an_lib Scr Th Ev Co F) (a : CliAnalyze.an_args) evs,
+  SrcCliAnalyze.src_cli_analyze Scr Th Ev Co F L a = Ok evs ->
+  CliAnalyze.an_regplot_seeds evs = [Some (CliAnalyze.an_seed a); Some (CliAnalyze.an_seed a)].
+Proof. exact C18CliAnalyze.src_cli_analyze_regplot_seeds. Qed.
+Print Assumptions C18_source_cli_analyze_regplot_seeds.
+
+(* its bootstrap generators are default_rng(--seed), whatever the entropy source answers *)
+Theorem C18_source_cli_analyze_bootstrap_seeded :
+  forall (Scr Th Ev Co F G W : Type) (of_seed : Z -> G) (of_entropy : W -> G) (L : CliAnalyze.an_lib Scr Th Ev Co F)
+         (a : CliAnalyze.an_args) (w : W),
+  CliAnalyze.an_bootstrap_rngs of_seed of_entropy (SrcCliAnalyze.src_cli_analyze Scr Th Ev Co F L a) w
+  = match SrcCliAnalyze.src_cli_analyze Scr Th Ev Co F L a with
+    | Ok _ => [of_seed (CliAnalyze.an_seed a); of_seed (CliAnalyze.an_seed a)]
+    | Err _ => []
+    end.
+Proof. exact C18CliAnalyze.src_cli_analyze_bootstrap_seeded. Qed.
+Print Assumptions C18_source_cli_analyze_bootstrap_seeded.
+
+(* two runs with the same files and the same --seed in two arbitrary worlds bootstrap from the same generators (the list of
+   effects is the same term: a function of the library record and the parsed arguments) *)
+Theorem C18_source_cli_analyze_entropy_free :
+  forall (Scr Th Ev Co F G W : Type) (of_seed : Z -> G) (of_entropy : W -> G) (L : CliAnalyze.an_lib Scr Th Ev Co F)
+         (a : CliAnalyze.an_args) (w1 w2 : W),
+  CliAnalyze.an_bootstrap_rngs of_seed of_entropy (SrcCliAnalyze.src_cli_analyze Scr Th Ev Co F L a) w1
+  = CliAnalyze.an_bootstrap_rngs of_seed of_entropy (SrcCliAnalyze.src_cli_analyze Scr Th Ev Co F L a) w2.
+Proof. exact C18CliAnalyze.src_cli_analyze_entropy_free. Qed.
+Print Assumptions C18_source_cli_analyze_entropy_free.
+
+(* the wrapper BEFORE the repair (cli_analyze_gen false: --seed parsed, the keyword absent at both calls): the generators of a
+   completed run are the entropy source's answer, and there are files, a --seed and two answers for which two runs differ *)
+Theorem C18_cli_analyze_unseeded_refuted :
+  exists (L : CliAnalyze.an_lib unit unit unit unit unit) (a : CliAnalyze.an_args) (w1 w2 : Z),
+    CliAnalyze.an_bootstrap_rngs (fun z => z) (fun w => w) (CliAnalyze.cli_analyze_gen false L a) w1
+    <> CliAnalyze.an_bootstrap_rngs (fun z => z) (fun w => w) (CliAnalyze.cli_analyze_gen false L a) w2.
+Proof. exact C18CliAnalyze.cli_analyze_unseeded_refuted. Qed.
+Print Assumptions C18_cli_analyze_unseeded_refuted.
+
+(* non-vacuity: a completed run of the translated main() with --seed 3 (two generators, both of_seed 3, in the worlds 10 and 11),
+   and the seed matters: --seed 4 gives other generators *)
+Example C18_source_cli_analyze_example :
+  CliAnalyze.an_bootstrap_rngs (fun z => z) (fun w : Z => w)
+    (SrcCliAnalyze.src_cli_analyze _ _ _ _ _ C18CliAnalyze.ex_unit_lib (C18CliAnalyze.ex_unit_args 3)) 10 = [3; 3]
+  /\ CliAnalyze.an_bootstrap_rngs (fun z => z) (fun w : Z => w)
+    (SrcCliAnalyze.src_cli_analyze _ _ _ _ _ C18CliAnalyze.ex_unit_lib (C18CliAnalyze.ex_unit_args 3)) 11 = [3; 3]
+  /\ CliAnalyze.an_bootstrap_rngs (fun z => z) (fun w : Z => w)
+    (SrcCliAnalyze.src_cli_analyze _ _ _ _ _ C18CliAnalyze.ex_unit_lib (C18CliAnalyze.ex_unit_args 4)) 10 = [4; 4]
+  /\ CliAnalyze.an_bootstrap_rngs (fun z => z) (fun w : Z => w)
+    (CliAnalyze.cli_analyze_gen false C18CliAnalyze.ex_unit_lib (C18CliAnalyze.ex_unit_args 3)) 10 = [10; 10].
+Proof. vm_compute. repeat split; reflexivity. Qed.
 
 (* ---- the initial cover (gap review g5, gap 6).  SparseCoverPlateGenerator is linked under C13 in state-passing form (the answer
    stream `ds` an explicit argument, rng.choice(a, size=1) on the function's OWN generator argument the only primitive that reads it:
